@@ -19,7 +19,7 @@ from ..core import run_check, CheckerError
 from ..poly import P, normal, rational_close, mono_text
 from .. import pysym, shims, kernel, vc, spec_laminate as SL
 from ..pysym import Interp, real, integer, Obj, to_z3, Cond, SymRaise
-from ..induct import SymList, InductiveFor, indexed_atom, values_equal
+from ..induct import SymList, InductiveFor, indexed_atom, values_equal, values_equal_on_path
 
 F = 'compmech/composite/'
 
@@ -120,14 +120,14 @@ out = {"real": float(getattr(m, payload["attr"]))}
     return r
 
 
-def check_fields(led, func, tag, have, want):
+def check_fields(led, func, tag, have, want, path=None):
     for k, w in want.items():
         h = have.get(k)
         name = '%s/%s/%s' % (func, tag, k)
         if h is None:
             led.fail(name, func, {'reason': 'attribute not set'}, signature=k, replay=replay_fields(tag, k, w))
             continue
-        ok, why = values_equal(h, w)
+        ok, why = values_equal_on_path(h, w, path)
         if ok:
             led.ok(name, func)
         else:
@@ -165,7 +165,7 @@ def part_laminaprop(led):
             wantf = {'e1': want['E1'], 'e2': want['E2'], 'nu12': want['nu12'],
                      'nu21': want['nu12'] * want['E2'] / want['E1'],
                      'g12': want['G12'], 'g13': want['G13'], 'g23': want['G23']}
-            check_fields(led, func, tag, m.attrs, wantf)
+            check_fields(led, func, tag, m.attrs, wantf, path)
             discharge_side(led, it, path, func, tag)
         led.solver_time('z3-feasibility', it.solver_time)
 
@@ -226,7 +226,7 @@ def part_lamina(led):
                 continue
             for i in range(5):
                 for j in range(5):
-                    ok, why = values_equal(QL[i, j], want[i, j])
+                    ok, why = values_equal_on_path(QL[i, j], want[i, j], path)
                     name = '%s[%s]/QL[%d,%d]==tensor-rotation' % (func, tag, i, j)
                     if ok:
                         led.ok(name, func, sample=({'spec': normal(want[i, j]).text()[:300]} if (i, j, tag) == (0, 2, 'ortho6') else None))
@@ -314,6 +314,8 @@ def ply_factory(it):
         o = Obj(lamina_cls)
         o.name = 'ply[%s]' % (k.text() if isinstance(k, P) else k)
         o.attrs['t'] = indexed_atom('t', k)
+        o.attrs['theta'] = indexed_atom('theta', k)
+        o.partial_model = True          # a Lamina of the general stack: attributes not listed here are a gap of the model, not of the program
         QL = np.empty((5, 5), dtype=object)
         for i in range(5):
             for j in range(5):
@@ -454,6 +456,8 @@ def part_rebuild(led):
         o = Obj(lamina_cls)
         o.name = 'ply[%s]' % (k.text() if isinstance(k, P) else k)
         o.attrs['t'] = indexed_atom('t', k)
+        o.attrs['theta'] = indexed_atom('theta', k)
+        o.partial_model = True          # a Lamina of the general stack: attributes not listed here are a gap of the model, not of the program
         return o
     plies = SymList('plies', N, make)
     T = kernel.make_sum('j', 0, N, indexed_atom('t', integer('j')), [])
@@ -655,7 +659,7 @@ def part_read_stack(led):
                 for key, w in want.items():
                     h = lam.get(key)
                     name = '%s/%s/%s' % (func, tag, key)
-                    ok, why = values_equal(h, w) if h is not None else (False, 'attribute not set')
+                    ok, why = values_equal_on_path(h, w, path) if h is not None else (False, 'attribute not set')
                     if ok:
                         led.ok(name, func, backend='normal-form(bounded N)')
                     else:
